@@ -208,3 +208,15 @@ Theorem copy_restores_identically : forall tid src dst snaps (src_plain dst_plai
     map (fun i => dst_plain (Data, i)) (n_content n) = map (fun i => src_plain (Data, i)) (n_content n).
 Proof. exact copy_restores_identically_lemma. Qed.
 Print Assumptions copy_restores_identically.
+
+(* COPY FROM ANY SOURCE.  Without the premise that the source is closed: every reachable blob the source index
+   knows ends up in the destination index, and copy requests only blobs the source knows and the destination
+   lacks (ids unknown to the source are skipped by `filter_map` — read from copy.rs): the destination becomes
+   exactly as closed as the source.  copy_closed is the special case of a closed source. *)
+Theorem copy_closed_relative : forall tid src dst snaps es s,
+  Verif.C13.Model.run Verif.C13.Model.init es = Some s -> Verif.C13.Model.final s = true ->
+  (forall b, In b (needed tid src dst snaps) -> In (conv b) (Verif.C13.Model.requested s)) ->
+  (forall b, In b (flat_map (reach tid) snaps) -> has src b = true -> has (dst ++ indexed_blobs s) b = true) /\
+  (forall b, In b (needed tid src dst snaps) -> has src b = true /\ has dst b = false).
+Proof. exact copy_closed_relative_lemma. Qed.
+Print Assumptions copy_closed_relative.
